@@ -498,6 +498,99 @@ func (r *run) jwtRS() {
 	}
 }
 
+// kidMatrix: hand-built RS256 tokens whose header key id is absent, empty, each
+// registered id, or an unregistered id, signed by each key of the identity (and
+// by a foreign key), for 1-key and 2-key identities, at instants inside and
+// outside each key's validity window.  SignToken always sets a kid, so these
+// texts can only be built by hand.
+func (r *run) kidMatrix() {
+	initRSA()
+	T := int64(1700000000)
+	const ns = int64(time.Second)
+	const rsaT = "ssh-rsa"
+	const user, host = "robot", "example.com"
+	mk := func(i int, id string, nvb, nva int64) cardKey {
+		return cardKey{ID: id, Type: rsaT, Alg: jwt.AlgRS256, Key: fixedKeys[i].Pub, NVA: nva, NVB: nvb}
+	}
+	type ident struct {
+		name string
+		ks   []cardKey
+		mat  []int // index into fixedKeys of each key
+	}
+	idents := []ident{
+		{"one-key", []cardKey{mk(0, "only", 0, T+1000)}, []int{0}},
+		{"two-keys", []cardKey{mk(1, "first", T-500, T+500), mk(2, "last", T-100, T+2000)}, []int{1, 2}},
+		{"empty-id-first", []cardKey{mk(2, "", T-500, T+500), mk(0, "named", 0, T+2000)}, []int{2, 0}},
+	}
+	claims := mustJSON(map[string]interface{}{"iss": ".", "sub": user, "aud": host, "iat": T - 3600, "exp": T + 86400})
+	cs := b64(claims)
+	sign := func(ki int, txt string) string {
+		h := sha256.Sum256([]byte(txt))
+		sig, err := rsa.SignPKCS1v15(nil, rsaPri[ki], crypto.SHA256, h[:])
+		if err != nil {
+			panic(err)
+		}
+		return txt + "." + b64(sig)
+	}
+	for _, id := range idents {
+		type hv struct{ name, json string }
+		hdrs := []hv{
+			{"absent", `{"alg":"RS256","typ":"JWT"}`},
+			{"empty", `{"alg":"RS256","typ":"JWT","kid":""}`},
+			{"unregistered", `{"alg":"RS256","typ":"JWT","kid":"bogus"}`},
+		}
+		for _, k := range id.ks {
+			if k.ID != "" {
+				hdrs = append(hdrs, hv{"registered:" + k.ID, `{"alg":"RS256","typ":"JWT","kid":` + string(mustJSON(k.ID)) + `}`})
+			}
+		}
+		// instants: inside every window, and just outside each end of each window
+		times := []int64{T * ns}
+		for _, k := range id.ks {
+			if k.NVB > 0 {
+				times = append(times, k.NVB*ns-1, k.NVB*ns)
+			}
+			times = append(times, k.NVA*ns, k.NVA*ns+1)
+		}
+		signers := append([]int{}, id.mat...)
+		for f := 0; f < len(fixedKeys); f++ { // one foreign key
+			foreign := true
+			for _, m := range id.mat {
+				if m == f {
+					foreign = false
+				}
+			}
+			if foreign {
+				signers = append(signers, f)
+				break
+			}
+		}
+		for _, h := range hdrs {
+			for si, ki := range signers {
+				tok := []byte(sign(ki, b64([]byte(h.json))+"."+cs))
+				tokid := r.ntok
+				r.ntok++
+				who := "foreign"
+				if si < len(id.mat) {
+					who = []string{"first", "last"}[si]
+					if len(id.mat) == 1 {
+						who = "only"
+					}
+				}
+				mu := func() *Mut {
+					return &Mut{Tok: tokid, Class: "kidmatrix", Arg: id.name + " kid=" + h.name + " signer=" + who, Same: true}
+				}
+				for ti, now := range times {
+					r.jwtRSCase(id.ks, now, tok, false, "", "", mu())
+					if ti == 0 {
+						r.jwtRSCase(id.ks, now, tok, true, user, host, mu())
+					}
+				}
+			}
+		}
+	}
+}
+
 // ---- claim templates and time -------------------------------------------------------------
 
 func claimErr(err error) int { return jwtErr(err) }
